@@ -24,12 +24,17 @@ structure Cfg.Good (c : Cfg) : Prop where
   reconnect : c.reconnectLoop = stdLoop
   creditAtomic : c.creditAtomic = true
   reconnectAtomic : c.reconnectAtomic = true
+  creditClock : c.creditClock = true
+  reconnectClock : c.reconnectClock = true
 
 instance (c : Cfg) : Decidable c.Good :=
   if h : c.tbl.adequate = true ∧ c.creditLoop = stdLoop ∧ c.reconnectLoop = stdLoop ∧
-      c.creditAtomic = true ∧ c.reconnectAtomic = true
-  then isTrue ⟨h.1, h.2.1, h.2.2.1, h.2.2.2.1, h.2.2.2.2⟩
-  else isFalse fun g => h ⟨g.tbl, g.credit, g.reconnect, g.creditAtomic, g.reconnectAtomic⟩
+      c.creditAtomic = true ∧ c.reconnectAtomic = true ∧ c.creditClock = true ∧ c.reconnectClock = true
+  then isTrue ⟨h.1, h.2.1, h.2.2.1, h.2.2.2.1, h.2.2.2.2.1, h.2.2.2.2.2.1, h.2.2.2.2.2.2⟩
+  else isFalse fun g => h ⟨g.tbl, g.credit, g.reconnect, g.creditAtomic, g.reconnectAtomic, g.creditClock, g.reconnectClock⟩
+
+theorem Cfg.Good.clockOf {c : Cfg} (g : c.Good) (k : Kind) : c.clockOf k = true := by
+  cases k <;> simp [Cfg.clockOf, g.creditClock, g.reconnectClock]
 
 theorem Cfg.Good.atomicOf {c : Cfg} (g : c.Good) (k : Kind) : c.atomicOf k = true := by
   cases k <;> simp [Cfg.atomicOf, g.creditAtomic, g.reconnectAtomic]
@@ -146,20 +151,20 @@ theorem wake_obligation_generic (t : NotifyTable) (ht : t.adequate = true) (k : 
 theorem runBody_std_true (k : Kind) (e : Bool) (s : Sh) (hp : pred k s = true) :
     ∃ s', runBody k e stdLoop s = some (s', .returned (expected k s)) ∧
       s'.window = s.window ∧ s'.sent = s.sent ∧ s'.acked = s.acked ∧ s'.cancelled = s.cancelled ∧
-      s'.file = s.file ∧ s'.ring = s.ring := by
+      s'.file = s.file ∧ s'.ring = s.ring ∧ (s'.pending = s.pending ∨ s'.pending = none) := by
   cases hc : s.cancelled with
-  | some r => exact ⟨s, by simp [stdLoop, runBody, expected, hc], rfl, rfl, rfl, hc, rfl, rfl⟩
+  | some r => exact ⟨s, by simp [stdLoop, runBody, expected, hc], rfl, rfl, rfl, hc, rfl, rfl, Or.inl rfl⟩
   | none =>
     cases k with
     | credit len =>
       have : (inFlight s == 0 || Nat.ble (inFlight s + len) s.window) = true := by
         simpa [pred, hc] using hp
-      exact ⟨s, by simp [stdLoop, runBody, expected, hc, this], rfl, rfl, rfl, hc, rfl, rfl⟩
+      exact ⟨s, by simp [stdLoop, runBody, expected, hc, this], rfl, rfl, rfl, hc, rfl, rfl, Or.inl rfl⟩
     | reconnect =>
       cases hq : s.pending with
       | none => simp [pred, hc, hq] at hp
       | some off =>
-        exact ⟨{ s with pending := none }, by simp [stdLoop, runBody, expected, hc, hq], rfl, rfl, rfl, hc, rfl, rfl⟩
+        exact ⟨{ s with pending := none }, by simp [stdLoop, runBody, expected, hc, hq], rfl, rfl, rfl, hc, rfl, rfl, Or.inr rfl⟩
 
 theorem runBody_std_false (k : Kind) (e : Bool) (s : Sh) (hp : pred k s = false) :
     runBody k e stdLoop s = some (s, if e then .returned .timeout else .parked) := by
@@ -199,7 +204,7 @@ theorem NoLost.step {c : Cfg} (g : c.Good) {k : Kind} {st : St} (h : NoLost k st
   | check ex =>
     simp only [Repe.Condvar.step]
     split
-    · rw [g.loopOf, g.atomicOf]
+    · rw [g.loopOf, g.atomicOf, g.clockOf, Bool.and_true]
       cases hp : pred k st.sh with
       | true =>
         obtain ⟨s', hs', _⟩ := runBody_std_true k ex st.sh hp
@@ -285,7 +290,7 @@ theorem Bound.step {c : Cfg} (g : c.Good) {k : Kind} {r : Ret} {sh0 : Sh} {st : 
     | check ex =>
       simp only [Repe.Condvar.step]
       split
-      · rw [g.loopOf, g.atomicOf]
+      · rw [g.loopOf, g.atomicOf, g.clockOf, Bool.and_true]
         obtain ⟨s', hs', _⟩ := runBody_std_true k ex st.sh hp
         rw [hs']; left; simp [hx]
       · right; exact ⟨hpc, hp, hx, hs, hm⟩
@@ -325,7 +330,7 @@ theorem check_return {c : Cfg} (g : c.Good) {k : Kind} {st : St} {e : Bool} {r :
   split at h
   · rename_i hck
     refine ⟨hck, ?_⟩
-    rw [g.loopOf, g.atomicOf] at h
+    rw [g.loopOf, g.atomicOf, g.clockOf, Bool.and_true] at h
     cases hp : pred k st.sh with
     | true =>
       obtain ⟨s', hs', _⟩ := runBody_std_true k e st.sh hp
@@ -379,5 +384,223 @@ theorem return_step {c : Cfg} (g : c.Good) {k : Kind} {r : Ret} (evs : List Ev) 
       exact ⟨[], e, es, rfl, h1, h2⟩
     · obtain ⟨pre, e, post, h1, h2, h3⟩ := ih hs (by simpa [run] using h)
       exact ⟨ev :: pre, e, post, by simp [h1], by simpa [run] using h2, by simpa [run] using h3⟩
+
+/-! ### any number of waiters -/
+
+/-- One pass of a waiter through its loop body never makes another waiter's condition true (the only
+thing it may change is to consume the staged resume). -/
+theorem runBody_std_other {k : Kind} {e : Bool} {s s' : Sh} {pc' : PC}
+    (h : runBody k e stdLoop s = some (s', pc')) (k' : Kind) (hp' : pred k' s = false) :
+    pred k' s' = false := by
+  cases hp : pred k s with
+  | false =>
+    rw [runBody_std_false k e s hp] at h
+    cases h; exact hp'
+  | true =>
+    obtain ⟨s'', hs'', hw, hs, ha, hc, _, _, hq⟩ := runBody_std_true k e s hp
+    rw [hs''] at h
+    cases h
+    cases k' with
+    | credit len =>
+      have : pred (.credit len) s' = pred (.credit len) s := by
+        unfold pred inFlight; simp only [hw, hs, ha, hc]
+      rw [this]; exact hp'
+    | reconnect =>
+      obtain ⟨h1, h2⟩ := pred_reconnect_false hp'
+      have hq' : s'.pending = none := by
+        rcases hq with hq | hq
+        · rw [hq]; exact h2
+        · exact hq
+      simp [pred, hc, h1, hq']
+
+/-- The n-waiter configuration the no-lost-wake-up proof needs: everything `Good` says, and every
+notification is a `notify_all`. -/
+structure Cfg.GoodN (c : Cfg) : Prop where
+  good : c.Good
+  all : c.notifyAll = true
+
+instance (c : Cfg) : Decidable c.GoodN :=
+  if h : c.Good ∧ c.notifyAll = true then isTrue ⟨h.1, h.2⟩ else isFalse fun g => h ⟨g.good, g.all⟩
+
+structure MNoLost (kinds : Nat → Kind) (st : MSt) : Prop where
+  parked : ∀ i, st.pc i = .parked → pred (kinds i) st.sh = false
+  mutex : ∀ i, st.pc i = .checking ↔ st.holder = some i
+  notPre : ∀ i, st.pc i ≠ .preparking
+
+theorem MNoLost.init (kinds : Nat → Kind) (s : Sh) : MNoLost kinds (MSt.init s) :=
+  ⟨by simp [MSt.init], by simp [MSt.init], by simp [MSt.init]⟩
+
+theorem upd_same (f : Nat → PC) (i : Nat) (v : PC) : upd f i v i = v := by simp [upd]
+theorem upd_other (f : Nat → PC) {i j : Nat} (v : PC) (h : j ≠ i) : upd f i v j = f j := by simp [upd, h]
+
+theorem MNoLost.step {c : Cfg} (g : c.GoodN) {kinds : Nat → Kind} {st : MSt} (h : MNoLost kinds st) (e : MEv) :
+    MNoLost kinds (mstep c kinds st e) := by
+  cases e with
+  | lock i =>
+    simp only [mstep]
+    split
+    · rename_i hc
+      refine ⟨?_, ?_, ?_⟩
+      · intro j hj
+        try dsimp only at hj ⊢
+        by_cases hji : j = i
+        · subst hji; simp [upd_same] at hj
+        · rw [upd_other _ _ hji] at hj; exact h.parked j hj
+      · intro j
+        try dsimp only
+        by_cases hji : j = i
+        · subst hji; simp [upd_same]
+        · rw [upd_other _ _ hji]
+          constructor
+          · intro hck; have := (h.mutex j).mp hck; rw [hc.2] at this; cases this
+          · intro hh; exfalso; apply hji; simpa using hh.symm
+      · intro j
+        try dsimp only
+        by_cases hji : j = i
+        · subst hji; simp [upd_same]
+        · rw [upd_other _ _ hji]; exact h.notPre j
+    · split
+      · rename_i hpre; exact absurd hpre.1 (h.notPre i)
+      · exact h
+  | check i ex =>
+    simp only [mstep]
+    split
+    · rename_i hck
+      rw [g.good.loopOf, g.good.atomicOf, g.good.clockOf, Bool.and_true]
+      cases hb : runBody (kinds i) ex stdLoop st.sh with
+      | none => exact h
+      | some r =>
+        obtain ⟨sh', pc'⟩ := r
+        simp only
+        have hpc' : (if pc' = PC.parked ∧ true = false then PC.preparking else pc') = pc' := by simp
+        rw [hpc']
+        refine ⟨?_, ?_, ?_⟩
+        · intro j hj
+          try dsimp only at hj ⊢
+          by_cases hji : j = i
+          · subst hji
+            rw [upd_same] at hj
+            subst hj
+            cases hp : pred (kinds j) st.sh with
+            | true =>
+              obtain ⟨s'', hs'', _⟩ := runBody_std_true (kinds j) ex st.sh hp
+              rw [hs''] at hb; simp at hb
+            | false =>
+              rw [runBody_std_false (kinds j) ex st.sh hp] at hb
+              cases ex <;> simp at hb
+              · rw [← hb]; exact hp
+          · rw [upd_other _ _ hji] at hj
+            exact runBody_std_other hb (kinds j) (h.parked j hj)
+        · intro j
+          try dsimp only
+          by_cases hji : j = i
+          · subst hji
+            rw [upd_same]
+            constructor
+            · intro hpc
+              exfalso
+              subst hpc
+              cases hp : pred (kinds j) st.sh with
+              | true =>
+                obtain ⟨s'', hs'', _⟩ := runBody_std_true (kinds j) ex st.sh hp
+                rw [hs''] at hb; simp at hb
+              | false =>
+                rw [runBody_std_false (kinds j) ex st.sh hp] at hb
+                cases ex <;> simp at hb
+            · intro hh; cases hh
+          · rw [upd_other _ _ hji]
+            constructor
+            · intro hpc; have := (h.mutex j).mp hpc; rw [hck.2] at this; exfalso; apply hji; simpa using this.symm
+            · intro hh; cases hh
+        · intro j
+          try dsimp only
+          by_cases hji : j = i
+          · subst hji
+            rw [upd_same]
+            intro hpc
+            subst hpc
+            cases hp : pred (kinds j) st.sh with
+            | true =>
+              obtain ⟨s'', hs'', _⟩ := runBody_std_true (kinds j) ex st.sh hp
+              rw [hs''] at hb; simp at hb
+            | false =>
+              rw [runBody_std_false (kinds j) ex st.sh hp] at hb
+              cases ex <;> simp at hb
+          · rw [upd_other _ _ hji]; exact h.notPre j
+    · exact h
+  | wake i =>
+    simp only [mstep]
+    split
+    · rename_i hpk
+      refine ⟨?_, ?_, ?_⟩
+      · intro j hj
+        try dsimp only at hj ⊢
+        by_cases hji : j = i
+        · subst hji; simp [upd_same] at hj
+        · rw [upd_other _ _ hji] at hj; exact h.parked j hj
+      · intro j
+        try dsimp only
+        by_cases hji : j = i
+        · subst hji
+          rw [upd_same]
+          constructor
+          · intro hh; cases hh
+          · intro hh; have := (h.mutex j).mpr hh; rw [hpk] at this; cases this
+        · rw [upd_other _ _ hji]; exact h.mutex j
+      · intro j
+        try dsimp only
+        by_cases hji : j = i
+        · subst hji; simp [upd_same]
+        · rw [upd_other _ _ hji]; exact h.notPre j
+    · exact h
+  | op o pick =>
+    simp only [mstep]
+    split
+    · exact h
+    · rename_i hl
+      have hnone : st.holder = none := by
+        cases hh : st.holder with
+        | none => rfl
+        | some x => simp [hh] at hl
+      rw [g.all]
+      simp only [if_true]
+      cases hn : (applyOp c.tbl o st.sh).2 with
+      | true =>
+        simp only [if_true]
+        refine ⟨?_, ?_, ?_⟩
+        · intro j hj
+          try dsimp only at hj ⊢
+          split at hj
+          · cases hj
+          · rename_i hnp; exact absurd hj hnp
+        · intro j
+          try dsimp only
+          rw [hnone]
+          constructor
+          · intro hh
+            split at hh
+            · cases hh
+            · have := (h.mutex j).mp hh; rw [hnone] at this; cases this
+          · intro hh; cases hh
+        · intro j
+          try dsimp only
+          split
+          · simp
+          · exact h.notPre j
+      | false =>
+        simp only [Bool.false_eq_true, if_false]
+        refine ⟨?_, h.mutex, h.notPre⟩
+        intro j hj
+        cases hp' : pred (kinds j) (applyOp c.tbl o st.sh).1 with
+        | false => rfl
+        | true =>
+          have := wake_obligation_generic c.tbl g.good.tbl (kinds j) o st.sh (h.parked j hj) hp'
+          rw [hn] at this; cases this
+
+theorem MNoLost.run {c : Cfg} (g : c.GoodN) {kinds : Nat → Kind} (evs : List MEv) {st : MSt}
+    (h : MNoLost kinds st) : MNoLost kinds (mrun c kinds st evs) := by
+  induction evs generalizing st with
+  | nil => exact h
+  | cons e es ih => exact ih (h.step g e)
 
 end Repe.Condvar
